@@ -219,3 +219,37 @@ def merge_evidence(prop, parts):
         base["violations"] += d["violations"]
     base["property_id"] = prop
     common.write_evidence(prop, base["tier"], cov, base["wall_s"], base["violations"], base["assumptions"])
+
+
+def run_recorded(prop, tier, *, trace_module, tag, cases, skipped, summary, rule, assumptions, spec_files, nontrivial, evidence_suffix, module="recorded"):
+    """Judge calls that were RECORDED from executions the harness did not script (the repository's own tests run with the
+    tracing hook on) against a trace specification; same verdict protocol as run_pure."""
+    t = common.Timer()
+    rejects, tstates = pure.validate(trace_module, cases, tag)
+    findings = common.Findings()
+    nviol = 0
+    viol_by_clause = Counter()
+    for c in cases:
+        if c["id"] not in rejects:
+            continue
+        unknown = [cl for cl in rejects[c["id"]] if findings.match(prop, cl, c) is None]
+        if unknown:
+            nviol += 1
+            for cl in unknown:
+                viol_by_clause[cl] += 1
+            if nviol <= 10:
+                path = common.write_replay(prop, 100 + nviol, {"property": prop, "module": module, "failing_clauses": unknown, "recorded": True,
+                                                               "test": c.get("variant"), "case": {k: c[k] for k in ("id", "in", "out", "variant")}})
+                print("VIOLATION property=%s replay=%s clauses=%s recorded_from=%s" % (prop, path, ",".join(unknown), c.get("variant")))
+    findings.report()
+    cov = {"states": tstates, "transitions": tstates, "traces_validated_against_impl": len(cases),
+           "samples": [{"recorded_from": c.get("variant"), "abstract_in": {k: (v if not isinstance(v, list) or len(v) <= 12 else "[%d values]" % len(v)) for k, v in c["in"].items()},
+                        "projected_out": {k: (v if not isinstance(v, list) or len(v) <= 12 else "[%d values]" % len(v)) for k, v in c["out"].items()},
+                        "verdict": "rejected" if c["id"] in rejects else "accepted"} for c in cases[:3]],
+           "evaluations": len(cases), "distinct_nontrivial": sum(1 for c in cases if nontrivial(c["in"], c["out"])), "rule": rule, "exhaustive": False,
+           "recorded_calls_skipped": skipped, "pytest_summary": summary, "trace_spec_states": tstates, "rejected_calls": len(rejects),
+           "rejected_known_findings": len(rejects) - nviol, "violations_by_clause": dict(viol_by_clause), "spec_modules": spec_files}
+    common.write_evidence(prop + evidence_suffix, tier, cov, t(), nviol, assumptions)
+    print("%s %s: %d calls recorded from the repository's own tests (%s), %d not judged here (see evidence), %d rejected (%d known), %d violations, %.1fs" % (
+        prop, tier, len(cases), summary, len(skipped), len(rejects), len(rejects) - nviol, nviol, t()))
+    return 1 if nviol else 0
